@@ -242,6 +242,10 @@ def _run_one(prog: Program, report: Report, g) -> int:
         if len(targets) < g.min and not (g.min == 0):
             raise AnalysisError(f"{g.rule}: {g.fn}: target /{g.target}/ found {len(targets)} time(s), expected at least {g.min} (table needs maintenance)")
         if isinstance(g, Gate):
+            if g.max is None and g.min >= 1 and re.fullmatch(r"\^(False|True|None|break|continue)\$", g.target) and len(targets) > g.min:
+                # constant answers are split and merged freely by refactorings: more of them than were
+                # reviewed cannot be attributed to the reviewed guard sets
+                raise AnalysisError(f"{g.rule}: {g.fn}: target /{g.target}/ found {len(targets)} times, expected at most {g.min} (a constant answer the reviewed code did not have: unrecognised)")
             if g.max is not None and len(targets) > g.max:
                 raise AnalysisError(f"{g.rule}: {g.fn}: target /{g.target}/ found {len(targets)} times, expected at most {g.max}")
             for t in targets:
@@ -285,6 +289,10 @@ def _run_one(prog: Program, report: Report, g) -> int:
                     if g.rule == "RV-auto":
                         raise AnalysisError(msg + " found 0 time(s) of the reviewed construct")
                     report.errors.append(msg)
+                elif _renamed_new(v, want_ast, e, canon):
+                    report.ob(g.rule, g.fn, f"{g.why.split(';')[0]}: `{one_line(e)[:70]}` = {want} (modulo a renamed local)")
+                elif _new_in(v, e):
+                    raise AnalysisError(f"{g.rule}: {g.fn}: `{one_line(e)[:60]}` cannot be compared with the documented formula `{want[:60]}`: it mentions {_new_in(v, e)}, which the reviewed function did not contain; the formula's own names found 0 time(s) in that role (renamed or restructured)")
                 elif _gone_names(v, want_ast):
                     raise AnalysisError(f"{g.rule}: {g.fn}: `{one_line(e)[:60]}` cannot be compared with the documented formula `{want[:60]}`: it mentions {_gone_names(v, want_ast)}, found 0 time(s) in the function now (renamed or restructured)")
                 else:
@@ -350,6 +358,36 @@ def _run_one(prog: Program, report: Report, g) -> int:
                 else:
                     report.violate(g.rule, v.fn, t, f"{g.why.split(';')[0]}: {one_line(t)[:100]}", f"{g.why}; a path from the function entry reaches this statement without passing `{g.through}`", what=f"every path to the target passes /{g.through}/")
     return n
+
+
+def _new_in(v: FnView, e: ast.expr) -> list[str]:
+    from ..gates import new_names
+
+    nn = new_names(v)
+    return sorted({n.id for n in ast.walk(e) if isinstance(n, ast.Name) and n.id in nn})
+
+
+def _renamed_new(v: FnView, want_ast: ast.expr, e: ast.expr, canon) -> bool:
+    """The expression mentions identifiers the reviewed function did not have: each may be a new
+    name for one of the formula's names (even one that still exists, e.g. as a parameter)."""
+    import itertools
+
+    from ..norm import clone
+
+    new = _new_in(v, e)
+    if not new or len(new) > 3:
+        return False
+    want_names = sorted({n.id for n in ast.walk(want_ast) if isinstance(n, ast.Name)})
+    want = canon(want_ast)
+    for combo in itertools.product(want_names, repeat=len(new)):
+        m = dict(zip(new, combo))
+        c = clone(e)
+        for n in ast.walk(c):
+            if isinstance(n, ast.Name) and n.id in m:
+                n.id = m[n.id]
+        if canon(c) == want:
+            return True
+    return False
 
 
 def _gone_names(v: FnView, want_ast: ast.expr) -> list[str]:
